@@ -35,6 +35,12 @@ class SArr(_np.ndarray):
     def __ne__(self, o): return self._cmp(o, _np.not_equal)
     __hash__ = None
 
+    def __getitem__(self, idx):
+        return _np.ndarray.__getitem__(self, _concretise_index(idx))
+
+    def __setitem__(self, idx, val):
+        return _np.ndarray.__setitem__(self, _concretise_index(idx), val)
+
     def astype(self, dtype, *a, **k):
         if self.dtype == object and _np.dtype(dtype).kind == "f":
             return self.copy()
@@ -53,6 +59,44 @@ class SArr(_np.ndarray):
     def all(self, axis=None, **k): return NP.all(self, axis=axis)
     def argsort(self, *a, **k): return NP.argsort(self)
     def any(self, axis=None, **k): return NP.any(self, axis=axis)
+
+
+def _concretise_mask(m):
+    """Object array of SymBool/bool -> real bool array (forks per symbolic entry)."""
+    out = _np.empty(m.shape, dtype=bool)
+    for idx in _np.ndindex(m.shape):
+        out[idx] = bool(m[idx])
+    return out
+
+
+def _is_obj_mask(i):
+    if isinstance(i, _np.ndarray) and i.dtype == object and i.size > 0:
+        x = i.flat[0]
+        return isinstance(x, (SymBool, bool, _np.bool_))
+    return False
+
+
+def _concretise_index(idx):
+    if _is_obj_mask(idx):
+        return _concretise_mask(idx)
+    if isinstance(idx, tuple) and any(_is_obj_mask(i) for i in idx):
+        return tuple(_concretise_mask(i) if _is_obj_mask(i) else i for i in idx)
+    if isinstance(idx, _np.ndarray) and idx.dtype == object and idx.size == 0:
+        return _np.zeros(idx.shape, dtype=bool)
+    return idx
+
+
+class BArr(_np.ndarray):
+    """bool ndarray that accepts symbolic masks as indices (by forking)."""
+
+    def __array_finalize__(self, obj):
+        pass
+
+    def __getitem__(self, idx):
+        return _np.ndarray.__getitem__(self, _concretise_index(idx))
+
+    def __setitem__(self, idx, val):
+        return _np.ndarray.__setitem__(self, _concretise_index(idx), val)
 
 
 def _has_sym(a):
@@ -257,6 +301,8 @@ class NPShim(types.ModuleType):
         return a.view(SArr)
 
     def empty(self, shape, dtype=None, **k):
+        if dtype is bool:
+            return _np.zeros(shape, dtype=bool).view(BArr)
         if not _is_float_dtype(dtype):
             return _np.zeros(shape, dtype=dtype)
         a = _np.empty(shape, dtype=object)
@@ -333,7 +379,7 @@ class NPShim(types.ModuleType):
             c = _np.asarray(cond)
             if c.dtype == object:
                 c = _np.array([bool(x) for x in c.flat], dtype=bool).reshape(c.shape)
-            return _np.where(c)
+            return tuple(a.view(BArr) for a in _np.where(c))
         c = _np.asarray(cond)
         if c.dtype == object or _has_sym(a) or _has_sym(b):
             c, aa, bb = _np.broadcast_arrays(_np.asarray(c, dtype=object), _np.asarray(a, dtype=object),
